@@ -333,6 +333,62 @@ func rulesC15(c *Ctx) {
 	}
 	c.Floor("C15.d", "ranges over maps in the validator", nMapRange, 2)
 
+	// ------------------------------------------------------------------ C15.f hierarchy shape
+	c.Rule("C15.f", "checkQueueResource tests every queue maximum against the limit inherited from ALL its ancestors: the value handed to the children is ComponentWiseMin(own max, inherited max) and the own max is tested with inherited.FitInMaxUndef(own); children's guaranteed sums are tested against own guaranteed and own (merged) max")
+	if fn := c.MustFunc("C15.f", "configs.checkQueueResource"); fn != nil {
+		for _, call := range p.callsIn(fn, "configs.checkQueueResource") {
+			st := p.StateAt(fn, call)
+			ok := false
+			if len(call.Args) == 2 {
+				for _, t := range p.chain(T(call.Args[1], st)) {
+					if mc, isCall := unparen(t.E).(*ast.CallExpr); isCall && p.IsCall(mc, "resources.ComponentWiseMin") && len(mc.Args) == 2 {
+						if p.isParam(fn, mc.Args[1], 1) || p.isParam(fn, mc.Args[0], 1) {
+							ok = true
+						}
+					}
+				}
+			}
+			c.Check("C15.f", "children are checked against min(own max, inherited max)", call, ok, "the limit passed down to the children is %s, not ComponentWiseMin(own max, parent max): a resource type limited only by an ancestor is no longer enforced below a queue that limits other types", p.Src(call.Args[1]))
+		}
+		fit := false
+		nFit := 0
+		for _, call := range p.callsIn(fn, "resources.Resource.FitInMaxUndef") {
+			nFit++
+			if p.isParam(fn, Recv(call), 1) {
+				fit = true
+			}
+		}
+		c.Check("C15.f", "own max tested against the inherited max", fn.Decl, fit, "checkQueueResource no longer tests parentM.FitInMaxUndef(own max)")
+		c.Check("C15.f", "guaranteed sums tested against guaranteed and max", fn.Decl, nFit >= 3, "checkQueueResource has only %d FitInMaxUndef tests, expected 3 (own max in parent, children sum in guaranteed, children sum in max)", nFit)
+	}
+	// C15.g name uniqueness uses the loader's normalisation
+	c.Rule("C15.g", "sibling queue names and partition names are compared under the normalisation the loader applies (lower case): the duplicate maps are read and written with strings.ToLower(name)")
+	for _, fnName := range []string{"configs.checkQueues", "configs.Validate"} {
+		fn := c.MustFunc("C15.g", fnName)
+		if fn == nil {
+			continue
+		}
+		n := 0
+		ast.Inspect(fn.Decl.Body, func(nd ast.Node) bool {
+			ix, ok := nd.(*ast.IndexExpr)
+			if !ok {
+				return true
+			}
+			mt, isMap := p.TypeOf(ix.X).Underlying().(*types.Map)
+			if !isMap || mt.Elem().String() != "bool" || mt.Key().String() != "string" {
+				return true
+			}
+			if _, isLocal := unparen(ix.X).(*ast.Ident); !isLocal {
+				return true
+			}
+			n++
+			call, isCall := unparen(ix.Index).(*ast.CallExpr)
+			c.Check("C15.g", "duplicate map "+p.Src(ix.X)+" keyed by lower-cased name in "+shortFn(fnName), ix, isCall && p.IsCall(call, "strings.ToLower"), "%s is keyed by %s: names that differ only in case are not detected as duplicates although the loader lower-cases queue names (the second queue silently replaces the first)", p.Src(ix.X), p.Src(ix.Index))
+			return true
+		})
+		c.Floor("C15.g", "duplicate-name map accesses in "+shortFn(fnName), n, 2)
+	}
+
 	// ------------------------------------------------------------------ C15.e loaders return parser errors
 	c.Rule("C15.e", "the loading code returns (does not swallow) the error of every failing parser it applies to a configuration field")
 	var keys []string
